@@ -1,6 +1,7 @@
 package main
 
 import (
+	"sort"
 	"bytes"
 	"encoding/json"
 	"flag"
@@ -113,19 +114,7 @@ func firstLeaf(v interface{}, path []string) ([]string, bool) {
 // setting (a typed getter of the wrong kind); returns the class and message of the first error that
 // fails to mention the file (or mentions a source although the document was in memory).
 func provokeAll(cur *ucfg.Config, v interface{}, path []string, fname string, fromFile bool) (string, string) {
-	check := func(err error, at string) (string, string) {
-		if err == nil {
-			return "", ""
-		}
-		has := fname != "" && strings.Contains(err.Error(), "source:'"+fname+"'")
-		if fromFile && !has {
-			return "source-missing-in-error", at + ": " + err.Error()
-		}
-		if !fromFile && strings.Contains(err.Error(), "source:") {
-			return "source-in-memory-error", at + ": " + err.Error()
-		}
-		return "", ""
-	}
+	check := func(err error, at string) (string, string) { return sourceNamed(err, at, fname, fromFile) }
 	provoke := func(name string, idx int, x interface{}) (string, string) {
 		at := strings.Join(path, "/") + "/" + name + fmt.Sprintf("#%d", idx)
 		switch x.(type) {
@@ -312,6 +301,80 @@ type loadersCase struct {
 	Doc   *gval           `json:"doc"`
 	Sep   json.RawMessage `json:"sep"`
 	NoSep json.RawMessage `json:"nosep"`
+	// settings whose EXPANSION fails (Gen_Loaders.RefFaults): added to the document one at a time
+	Faults []refFault `json:"faults"`
+}
+
+type refFault struct {
+	Key   string `json:"key"`
+	Text  string `json:"text"`
+	Other string `json:"other"` // a second setting "name=text" the fault needs (the other half of a cycle)
+	Kind  string `json:"kind"`
+}
+
+// sourceNamed: an error about a setting read from a file mentions the file, and only then.
+func sourceNamed(err error, at, fname string, fromFile bool) (string, string) {
+	if err == nil {
+		return "", ""
+	}
+	has := fname != "" && strings.Contains(err.Error(), "source:'"+fname+"'")
+	if fromFile && !has {
+		return "source-missing-in-error", at + ": " + err.Error()
+	}
+	if !fromFile && strings.Contains(err.Error(), "source:") {
+		return "source-in-memory-error", at + ": " + err.Error()
+	}
+	return "", ""
+}
+
+// refFaultDocs renders the compact document with ONE failing expansion added at the top level, inside a nested list
+// and inside an object; returns (site, text, path of the faulty setting).
+func refFaultDocs(compact []byte, f refFault) [][3]string {
+	if len(compact) < 2 || compact[len(compact)-1] != '}' {
+		return nil
+	}
+	head := string(compact[:len(compact)-1])
+	if len(head) > 1 {
+		head += ","
+	}
+	q := func(s string) string { b, _ := json.Marshal(s); return string(b) }
+	other := ""
+	if f.Other != "" {
+		kv := strings.SplitN(f.Other, "=", 2)
+		other = "," + q(kv[0]) + ":" + q(kv[1])
+	}
+	return [][3]string{
+		{"top", head + q(f.Key) + ":" + q(f.Text) + other + "}", f.Key},
+		{"list", head + q(f.Key) + ":[[" + q("ok") + "," + q(f.Text) + "]]" + other + "}", f.Key + ".0.1"},
+		{"obj", head + q(f.Key) + ":{" + q("k") + ":" + q(f.Text) + "}" + other + "}", f.Key + ".k"},
+	}
+}
+
+// refFaultReads: every way of reading the faulty setting; each must fail, and the error names the file iff there is one.
+func refFaultReads(cfg *ucfg.Config, site string, f refFault, opts []ucfg.Option) map[string]error {
+	out := map[string]error{}
+	var m map[string]interface{}
+	out["unpack-map"] = cfg.Unpack(&m, opts...)
+	ift := reflect.StructOf([]reflect.StructField{{Name: "F", Type: reflect.TypeOf((*interface{})(nil)).Elem(), Tag: reflect.StructTag(`config:"` + f.Key + `"`)}})
+	out["unpack-interface-field"] = cfg.Unpack(reflect.New(ift).Interface(), opts...)
+	switch site {
+	case "top":
+		_, err := cfg.String(f.Key, -1, opts...)
+		out["string-getter"] = err
+		st := reflect.StructOf([]reflect.StructField{{Name: "F", Type: reflect.TypeOf(""), Tag: reflect.StructTag(`config:"` + f.Key + `"`)}})
+		out["unpack-string-field"] = cfg.Unpack(reflect.New(st).Interface(), opts...)
+	case "list":
+		st := reflect.StructOf([]reflect.StructField{{Name: "F", Type: reflect.TypeOf([][]string{}), Tag: reflect.StructTag(`config:"` + f.Key + `"`)}})
+		out["unpack-typed-list"] = cfg.Unpack(reflect.New(st).Interface(), opts...)
+		ml := reflect.StructOf([]reflect.StructField{{Name: "F", Type: reflect.TypeOf([]interface{}{}), Tag: reflect.StructTag(`config:"` + f.Key + `"`)}})
+		out["unpack-generic-list"] = cfg.Unpack(reflect.New(ml).Interface(), opts...)
+	case "obj":
+		st := reflect.StructOf([]reflect.StructField{{Name: "F", Type: reflect.TypeOf(map[string]string{}), Tag: reflect.StructTag(`config:"` + f.Key + `"`)}})
+		out["unpack-typed-map"] = cfg.Unpack(reflect.New(st).Interface(), opts...)
+		mm := reflect.StructOf([]reflect.StructField{{Name: "F", Type: reflect.TypeOf(map[string]interface{}{}), Tag: reflect.StructTag(`config:"` + f.Key + `"`)}})
+		out["unpack-generic-map"] = cfg.Unpack(reflect.New(mm).Interface(), opts...)
+	}
+	return out
 }
 
 func loadersReplay(args []string) int {
@@ -439,9 +502,65 @@ func loadersReplay(args []string) int {
 				}
 			}
 		}
+		// failing expansions (C18: "an error about a setting names the file it was read from"): one faulty setting at a
+		// time, at the top level / in a nested list / in an object, read in every way; every read must fail and the error
+		// mentions the file iff the document was loaded from one
+		var cb bytes.Buffer
+		renderJSON(c.Doc, &cb, "", "")
+		if len(c.Faults) > 0 && !bytes.Contains(cb.Bytes(), []byte("$")) {
+			for _, f := range c.Faults {
+				for _, fd := range refFaultDocs(cb.Bytes(), f) {
+					for _, ld := range loaders {
+						for _, fromFile := range []bool{false, true} {
+							opts := []ucfg.Option{ucfg.PathSep("."), ucfg.VarExp}
+							var cfg *ucfg.Config
+							var err error
+							fname := ""
+							var reads map[string]error
+							panicked, msg := guard(func() {
+								if fromFile {
+									fname = filepath.Join(dir, fmt.Sprintf("f%p%s", &cb, ld.ext))
+									ioutil.WriteFile(fname, []byte(fd[1]), 0o600)
+									cfg, err = ld.file(fname, opts...)
+								} else {
+									cfg, err = ld.mem([]byte(fd[1]), opts...)
+								}
+								if err == nil && cfg != nil {
+									reads = refFaultReads(cfg, fd[0], f, opts)
+								}
+							})
+							what := fmt.Sprintf("%s/file=%v/fault=%s@%s", ld.name, fromFile, f.Kind, fd[0])
+							if panicked {
+								rep.violate("ref-fault-panic", raw, msg, "an error", what)
+								return
+							}
+							rep.class("ref-fault:" + f.Kind + "@" + fd[0])
+							for _, rd := range sortedErrKeys(reads) {
+								if reads[rd] != nil {
+									rep.class("ref-fault-error:" + f.Kind + "@" + fd[0] + "/" + rd)
+								}
+								if cls, m := sourceNamed(reads[rd], fd[2]+" by "+rd, fname, fromFile); cls != "" {
+									rep.violate(cls, raw, map[string]interface{}{"text": fd[1], "read": rd, "error": m}, "an error about a setting read from a file mentions "+fname+" (and only then)", what)
+									return
+								}
+							}
+						}
+					}
+				}
+			}
+		}
 		rep.okIdeal()
 	}, rep)
 	return rep.finish()
+}
+
+func sortedErrKeys(m map[string]error) []string {
+	ks := make([]string, 0, len(m))
+	for k := range m {
+		ks = append(ks, k)
+	}
+	sort.Strings(ks)
+	return ks
 }
 
 // ---- driver: random documents; events in Trace_Normalize's format -----------------------
